@@ -59,6 +59,15 @@ def gen_model(desc, name, rng, out, small=12):
     elif isinstance(desc, dsl.ListOf):
         for i in range(rng.randint(desc.lo, desc.hi)):
             gen_model(desc.elem, f"{name}[{i}]", rng, out, small)
+    elif isinstance(desc, dsl.SeqOf):
+        length = rng.randint(0, 3)
+        out[f"len({name})"] = length
+        for i in range(length):
+            gen_model(desc.elem, f"{name}[{i}]", rng, out, small)
+    elif isinstance(desc, dsl.DictOf) and getattr(desc, "total", False) and desc.key is dsl.Str and desc.value is dsl.Int:
+        for key in ("a", "b", "c", "s"):
+            out[f'{name}[{json.dumps(key)}]'] = rng.randint(1, 30)
+        out[f"{name}.default"] = rng.randint(1, 30)
     elif isinstance(desc, dsl.Rec):
         for fname, ftype in desc.fields.items():
             gen_model(ftype, f"{name}.{fname}", rng, out, small)
@@ -68,8 +77,11 @@ def gen_model(desc, name, rng, out, small=12):
 
 def eligible(con) -> bool:
     if con.__dict__.get("derived") or con.__dict__.get("ghost_params") or con.__dict__.get("no_crosscheck") \
-            or con.__dict__.get("stubs") or con.__dict__.get("on_raise") or con.__dict__.get("loops"):
+            or con.__dict__.get("stubs") or con.__dict__.get("on_raise"):
         return False   # abstract worlds / external callees / file-system effects: never run natively here
+    if con.__dict__.get("loops") and (con.__dict__.get("known") or any(
+            d is dsl.Str for d in (con.__dict__.get("params") or {}).values())):
+        return False   # loops over strings / split known classes: not compared here
     try:
         rng = random.Random(1)
         for name, desc in (con.__dict__.get("params") or {}).items():
@@ -122,7 +134,10 @@ def main() -> int:
                 continue
             if compared >= 25:
                 break
-            res = verify_contract(repo, con, by_target, MODELS, 5000, concrete_model=model)
+            # contracts with loop invariants are executed with their loops run as they are (search mode): this
+            # cross-checks the translator on loops, appends and comprehensions as well
+            res = verify_contract(repo, con, by_target, MODELS, 5000, concrete_model=model,
+                                  mode="small" if con.__dict__.get("loops") else "main")
             if res["out_of_subset"] or res.get("engine_error"):
                 report["contracts"].setdefault(cname, {})["engine"] = (res["out_of_subset"] or res.get("engine_error"))[:300]
                 break
